@@ -34,6 +34,7 @@ func runC10(c *Ctx) {
 		"R1 (internal/wire layouts) `sym`: NBTNSPacket.Marshal and Unmarshal (including the per-section closure Unmarshal$1 and Marshal's loop over the slice literal of sections) list the same header words and, per section, the same element atoms — name length byte, name (FirstLevelEncode⇄FirstLevelDecode), type, class[, ttl, rdlength, rdata] — in the same order with the same widths; `order`: every multi-byte integer is big-endian on both sides; `spec`: the header is the six 16-bit words of RFC 1002 §4.2.1.1 in order; `count`: the decoder consumes its fields contiguously, the captured cursor is initialised to the header size, every store to it is the end of a read, and each loop iteration leaves it at the end of the element; `guard`: each length check establishes exactly the end of the reads it protects; `length`: the RData read is as long as the value read into RDLength, and the name read is as long as its length byte. " +
 		"R2 `sections`: each of the four sections is emitted by Marshal (a range over that section) and filled by Unmarshal (a loop bounded by that section's header count appending to that section), in RFC order; `counts`: the count word Marshal emits for a section is len(section), so that the header describes what follows. " +
 		"R3 `firstlevel` (internal/lanes bit provenance with the `± 'A'` offset — or a look-up in a constant alphabet T with T[j] = K+j — peeled, index forms as linear forms in the loop counter; the encoder is summarised as emit groups, one per counted loop producing two bytes per iteration, collected either from stores encoded[2i], encoded[2i+1] or from append(encoded, hi, lo), with the source byte being a padded 16-byte buffer, the padded string Name+strings.Repeat(P, 16-len(Name)), or Name[i] itself followed by a group of constants that encode the pad byte): FirstLevelEncode writes (name[i] bits 4-7)+K at byte 2i and (name[i] bits 0-3)+K at 2i+1; FirstLevelDecode subtracts the same K from bytes 2i and 2i+1, bounds both by 0x0F (E1) and reassembles (hi<<4)|lo into byte i (a store decoded[i] = … into a 16-byte buffer or array, or decoded = append(decoded, …) from an empty slice); K = ASCII_A = 0x41 on both sides; buffers and loop bounds are 16/32 = NetBIOSNameLength/EncodedNameLength and the decoder insists on len == 32 (E1); the pad byte stored after the name is ' ' and the decoder trims exactly that byte; the scope separator emitted immediately before the ScopeID bytes is the one the decoder splits on at its FIRST occurrence (SplitN(…, 2), Cut, or Index/IndexByte with s[:i], s[i+1:]). " +
+		"COMPLETENESS BEFORE VERDICT: as for C09 — a layout that internal/wire could not read completely (the buffer handed to an unanalysed helper / closure, a cursor type with more state than the unread tail, results returned through variables by a range-over-func body, an unparsed shape) makes the clauses that depend on it NOT DECIDED (discharged with a note, counted as present for the floors), and the packet pair is then decided by `roundtrip`: Marshal and Unmarshal interpreted over the bit-lane domain on one packet with 2/1/3/4 entries (symbolic integer fields, the name codec replaced by an injective stand-in): every field returns bit for bit, the header words are the RFC words in order, every multi-byte field is big-endian. The first-level rules accept a strings.Builder collector, a pad chosen per byte (c := ' '; if i < len(Name) { c = Name[i] }) and look-up tables in both directions (a constant alphabet T[j] = K+j; a package-level reverse table evaluated from its initialiser with T[K+j] = j and negative marks elsewhere, whose mark must be excluded by a dominating test); a clause whose construct is absent is NOT DECIDED only when the function contains code this rule does not look into (function literal, data-carrying in-module helper), otherwise undecided as before; ranging over the name as a string (rune decoding) is reported as such. " +
 		"NOT decided: conformance of the name FIELD to RFC 1002 §4.1 (Marshal emits `len | text[.scope]` with no terminating root label and the scope as dotted text rather than labels, Unmarshal expects the same: self-consistent, so invisible without an independent parser — recorded as an observation), names that themselves end in spaces (trimmed on decode), names starting with '*' (rejected by Validate), scope syntax, and value-level consistency RDLength == len(RData), which Marshal takes on trust."
 	r.Assumptions = []string{
 		"go/types + go/ssa (x/tools v0.50.0) are faithful to the source",
@@ -59,11 +60,30 @@ func runC10(c *Ctx) {
 		layouts["NBTNSPacket.Marshal"] = wire.Render(enc.enc)
 		layouts["NBTNSPacket.Unmarshal"] = wire.Render(dec.dec.Atoms)
 		c.guard("sym", "NBTNSPacket.Marshal⇄Unmarshal", dec.pos, func() {
-			wCompare(c, "sym", "NBTNSPacket.Marshal⇄Unmarshal", dec.pos, enc, dec, enc.enc, dec.dec.Atoms, pairs)
-			wOrder(c, enc, enc.enc, "encoder")
-			wOrder(c, dec, dec.dec.Atoms, "decoder")
-			wCheckDec(c, dec)
+			if why := wPairIncomplete(enc, dec); why != "" {
+				wND(c, "sym", "NBTNSPacket.Marshal⇄Unmarshal", dec.pos, why, 6+4+3*7)
+			} else {
+				wCompare(c, "sym", "NBTNSPacket.Marshal⇄Unmarshal", dec.pos, enc, dec, enc.enc, dec.dec.Atoms, pairs)
+			}
+			if enc.incomplete != "" {
+				wND(c, "order", "NBTNSPacket.Marshal encoder", enc.pos, enc.incomplete, 6+2+3*4)
+			} else {
+				wOrder(c, enc, enc.enc, "encoder")
+			}
+			if dec.incomplete != "" {
+				wND(c, "order", "NBTNSPacket.Unmarshal decoder", dec.pos, dec.incomplete, 6+2+3*4)
+				wND(c, "count", "NBTNSPacket.Unmarshal: reads are contiguous and the cursor ends at the last read", dec.pos, dec.incomplete, 1)
+				wND(c, "guard", "NBTNSPacket.Unmarshal: each length check establishes exactly the end of the reads it protects", dec.pos, dec.incomplete, 1)
+			} else {
+				wOrder(c, dec, dec.dec.Atoms, "decoder")
+				wCheckDec(c, dec)
+			}
 		})
+		if why := wRTWanted(wPairIncomplete(enc, dec)); why != "" {
+			// the structural comparison is NOT DECIDED: decide what the lane
+			// interpretation can, on one representative packet
+			c.guard(wRTRule, "NBTNSPacket", dec.pos, func() { wRoundTrip(c, c10RTSpec, why) })
+		}
 		c.guard("spec", "header", enc.pos, func() { c10Header(c, enc, dec) })
 		c.guard("sections", "NBTNSPacket", enc.pos, func() { c10Sections(c, enc, dec) })
 		c.guard("length", "NBTNSPacket", dec.pos, func() { c10Length(c, w, enc, dec) })
@@ -89,6 +109,15 @@ func runC10(c *Ctx) {
 	r.Note("observation (not a rule): the name field on the wire is `len | 32 half-ASCII bytes[.scope]` with no terminating zero label and the scope as dotted text; RFC 1002 §4.1 has 0x20, 32 bytes, then the scope as length-prefixed labels, then 0x00. Marshal and Unmarshal agree with each other, so only an independent parser can see it.")
 }
 
+var c10RTSpec = wRTSpec{
+	prop: "C10", pkg: nbtnsPkg, msgType: "NBTNSPacket", hdrField: "Header", hdrType: "NBTNSHeader",
+	hdrWords: nbnsHeaderOrder, counts: []string{"Questions", "Answers", "Authority", "Additional"},
+	secs:  []string{"Questions", "Answers", "Authority", "Additional"},
+	qType: "NBTNSQuestion", rrType: "NBTNSResourceRecord", rdata: "RData", rdlen: "RDLength", nameFld: "Name",
+	encRecv: "NBTNSPacket", encName: "Marshal", decRecv: "NBTNSPacket", decName: "Unmarshal", decIsMethod: true,
+	nameEnc: [2]string{"NetBIOSName", "FirstLevelEncode"}, nameDec: [2]string{"", "FirstLevelDecode"}, nameIsPtr: true,
+}
+
 func c10Header(c *Ctx, enc, dec *wcodec) {
 	r := c.R
 	for _, side := range []struct {
@@ -96,6 +125,10 @@ func c10Header(c *Ctx, enc, dec *wcodec) {
 		atoms []wire.Atom
 		name  string
 	}{{enc, enc.enc, "NBTNSPacket.Marshal"}, {dec, dec.dec.Atoms, "NBTNSPacket.Unmarshal"}} {
+		if side.k.incomplete != "" {
+			wND(c, "spec", side.name+": header words", side.k.pos, side.k.incomplete, len(nbnsHeaderOrder))
+			continue
+		}
 		for i, f := range nbnsHeaderOrder {
 			key := fmt.Sprintf("%s: header word %d is %s", side.name, i, f)
 			if i >= len(side.atoms) {
@@ -137,43 +170,55 @@ func c10Sections(c *Ctx, enc, dec *wcodec) {
 		// Marshal emits the section
 		key := "NBTNSPacket.Marshal: emits every element of " + s.sec
 		found := false
-		for _, a := range enc.enc {
-			if a.Kind == "repeat" && a.Over == s.sec {
-				found = true
-				nonEmpty := len(a.Body) > 0
-				for _, b := range a.Body {
-					if b.Cond {
-						nonEmpty = false
+		if enc.incomplete != "" {
+			wND(c, "sections", key, enc.pos, enc.incomplete, 1)
+			wND(c, "counts", fmt.Sprintf("NBTNSPacket.Marshal: header %s = len(%s)", s.sec, s.sec), enc.pos, enc.incomplete, 1)
+		}
+		if dec.incomplete != "" {
+			wND(c, "sections", fmt.Sprintf("NBTNSPacket.Unmarshal: decodes Header.%s elements into %s", s.sec, s.sec), dec.pos, dec.incomplete, 1)
+		}
+		if enc.incomplete == "" {
+			for _, a := range enc.enc {
+				if a.Kind == "repeat" && a.Over == s.sec {
+					found = true
+					nonEmpty := len(a.Body) > 0
+					for _, b := range a.Body {
+						if b.Cond {
+							nonEmpty = false
+						}
+					}
+					if nonEmpty {
+						r.OK("sections", key, c.P.Rel(a.Pos), fmt.Sprintf("range over %s appending %d atoms per element", s.sec, len(a.Body)))
+					} else {
+						r.Fail("sections", key, c.P.Rel(a.Pos), "the loop over "+s.sec+" emits nothing (or only conditionally)")
 					}
 				}
-				if nonEmpty {
-					r.OK("sections", key, c.P.Rel(a.Pos), fmt.Sprintf("range over %s appending %d atoms per element", s.sec, len(a.Body)))
-				} else {
-					r.Fail("sections", key, c.P.Rel(a.Pos), "the loop over "+s.sec+" emits nothing (or only conditionally)")
+			}
+			if !found {
+				r.Fail("sections", key, enc.pos, "Marshal writes the "+s.sec+" count into the header but never emits the "+s.sec+" entries")
+			}
+			// count word = len(section)
+			key = fmt.Sprintf("NBTNSPacket.Marshal: header %s = len(%s)", s.sec, s.sec)
+			found = false
+			for i, a := range enc.enc {
+				if i >= len(nbnsHeaderOrder) || a.Kind != "fixed" {
+					continue
+				}
+				if a.Field == cf || a.Expr == "len("+s.sec+")" {
+					found = true
+					if a.Expr == "len("+s.sec+")" {
+						r.OK("counts", key, c.P.Rel(a.Pos), "the emitted count is len("+s.sec+")")
+					} else {
+						r.Fail("counts", key, c.P.Rel(a.Pos), fmt.Sprintf("Marshal emits the stored field Header.%s as the count and then ranges over %s: when they differ (the servers build responses with Header.Questions copied from the request and no Questions) the packet announces entries that do not follow, and every parser mis-frames the rest", s.sec, s.sec))
+					}
 				}
 			}
-		}
-		if !found {
-			r.Fail("sections", key, enc.pos, "Marshal writes the "+s.sec+" count into the header but never emits the "+s.sec+" entries")
-		}
-		// count word = len(section)
-		key = fmt.Sprintf("NBTNSPacket.Marshal: header %s = len(%s)", s.sec, s.sec)
-		found = false
-		for i, a := range enc.enc {
-			if i >= len(nbnsHeaderOrder) || a.Kind != "fixed" {
-				continue
-			}
-			if a.Field == cf || a.Expr == "len("+s.sec+")" {
-				found = true
-				if a.Expr == "len("+s.sec+")" {
-					r.OK("counts", key, c.P.Rel(a.Pos), "the emitted count is len("+s.sec+")")
-				} else {
-					r.Fail("counts", key, c.P.Rel(a.Pos), fmt.Sprintf("Marshal emits the stored field Header.%s as the count and then ranges over %s: when they differ (the servers build responses with Header.Questions copied from the request and no Questions) the packet announces entries that do not follow, and every parser mis-frames the rest", s.sec, s.sec))
-				}
+			if !found {
+				r.Fail("counts", key, enc.pos, "Marshal does not emit a count for "+s.sec)
 			}
 		}
-		if !found {
-			r.Fail("counts", key, enc.pos, "Marshal does not emit a count for "+s.sec)
+		if dec.incomplete != "" {
+			continue
 		}
 		// Unmarshal fills the section under its count
 		key = fmt.Sprintf("NBTNSPacket.Unmarshal: decodes Header.%s elements into %s", s.sec, s.sec)
@@ -220,6 +265,10 @@ func c10Sections(c *Ctx, enc, dec *wcodec) {
 		pos  string
 	}{{"NBTNSPacket.Marshal", encOrder, enc.pos}, {"NBTNSPacket.Unmarshal", decOrder, dec.pos}} {
 		key := o.name + ": sections in RFC order"
+		if (o.name == "NBTNSPacket.Marshal" && enc.incomplete != "") || (o.name == "NBTNSPacket.Unmarshal" && dec.incomplete != "") {
+			wND(c, "sections", key, o.pos, "layout not read completely", 1)
+			continue
+		}
 		if inOrder(o.got) {
 			r.OK("sections", key, o.pos, strings.Join(o.got, ", "))
 		} else {
@@ -231,7 +280,18 @@ func c10Sections(c *Ctx, enc, dec *wcodec) {
 // c10Length: name length byte ↔ name bytes, RDLength ↔ RData.
 func c10Length(c *Ctx, w *prove.World, enc, dec *wcodec) {
 	r := c.R
-	for _, a := range dec.dec.Atoms {
+	decAtoms, encAtoms := dec.dec.Atoms, enc.enc
+	if dec.incomplete != "" {
+		// per section: the extent of the name (4) and of the RData (3)
+		wND(c, "length", "NBTNSPacket.Unmarshal: extents of names and RData", dec.pos, dec.incomplete, 7)
+		decAtoms = nil
+	}
+	if enc.incomplete != "" {
+		// per section: name preceded by its length, and that byte lossless
+		wND(c, "length", "NBTNSPacket.Marshal: names are preceded by their length", enc.pos, enc.incomplete, 8)
+		encAtoms = nil
+	}
+	for _, a := range decAtoms {
 		if a.Kind != "repeat" {
 			continue
 		}
@@ -265,7 +325,7 @@ func c10Length(c *Ctx, w *prove.World, enc, dec *wcodec) {
 		}
 	}
 	// encoder: the byte before each name is the (narrowed) length of what follows
-	for _, a := range enc.enc {
+	for _, a := range encAtoms {
 		if a.Kind != "repeat" {
 			continue
 		}
@@ -285,8 +345,10 @@ func c10Length(c *Ctx, w *prove.World, enc, dec *wcodec) {
 				if cv, ok := c09NarrowingOf(la.Val).(ssa.Instruction); ok {
 					at = cv
 				}
-				if !la.Narrow || wProveLE(w, at, la.LenOf, 255, true) {
-					r.OK("length", key, c.P.Rel(la.Pos), "E1: len(encoded) <= 255 where it is narrowed to the length byte")
+				if !la.Narrow || wProveLenLEDeep(c, w, at, la.LenOf, 255) {
+					r.OK("length", key, c.P.Rel(la.Pos), "E1: len(encoded) <= 255 where it is narrowed to the length byte (or at every success return of the helper that produced it)")
+				} else if helper := wGuardingHelper(c, at, la.LenOf); helper != nil {
+					wND(c, "length", key, c.P.Rel(la.Pos), "len(encoded) <= 255 is not established by the guards of Marshal itself, but "+helper.Name()+" is called first and its result decides an early exit: the bound may be established there", 1)
 				} else {
 					r.Fail("length", key, c.P.Rel(la.Pos), "len(encoded) <= 255 is not established where it is narrowed to one byte: a name with a long scope (Validate accepts a 255-byte scope, giving 288 bytes) is emitted with a wrapped length byte and the rest of the packet is mis-framed, silently")
 				}
@@ -501,6 +563,151 @@ func c10ByteRead(v ssa.Value) (base, idx ssa.Value, ok bool) {
 	return nil, nil, false
 }
 
+// c10CondPad: phi selects, for the iteration variable i of it, between a
+// constant pad byte and Name[i], under the test i < len(Name):
+//
+//	c := byte(P); if i < len(n.Name) { c = n.Name[i] }
+//
+// i.e. byte i of the name padded with P.
+func c10CondPad(x *wire.X, phi *ssa.Phi, it wire.LoopIter) (*c10Padded, ssa.Value, bool) {
+	if len(phi.Edges) != 2 {
+		return nil, nil, false
+	}
+	pb := phi.Block()
+	for i := 0; i < 2; i++ {
+		k, isK := x.FoldConst(phi.Edges[i])
+		if !isK {
+			continue
+		}
+		base, idx, ok := c10ByteRead(phi.Edges[1-i])
+		if !ok {
+			continue
+		}
+		base = wire.StripConv(base)
+		if f, _ := x.Desc(base); f != "Name" {
+			continue
+		}
+		if a, b, ok := c10IndexIn(x, idx, it); !ok || a != 1 || b != 0 {
+			continue
+		}
+		padPred, namePred := pb.Preds[i], pb.Preds[1-i]
+		// the branch that decides: the nearest block that dominates both
+		// predecessors and ends in an If
+		var br *ssa.BasicBlock
+		for _, cand := range []*ssa.BasicBlock{padPred, namePred, padPred.Idom(), namePred.Idom()} {
+			if cand == nil || len(cand.Succs) != 2 {
+				continue
+			}
+			if _, isIf := cand.Instrs[len(cand.Instrs)-1].(*ssa.If); !isIf {
+				continue
+			}
+			if (cand == padPred || cand.Dominates(padPred)) && (cand == namePred || cand.Dominates(namePred)) {
+				br = cand
+				break
+			}
+		}
+		if br == nil {
+			continue
+		}
+		cmp, isCmp := br.Instrs[len(br.Instrs)-1].(*ssa.If).Cond.(*ssa.BinOp)
+		if !isCmp {
+			continue
+		}
+		// normalise to  i OP len(Name)
+		xv, yv, op := cmp.X, cmp.Y, cmp.Op
+		if c10IsLenOf(x, xv, "Name") {
+			xv, yv = yv, xv
+			switch op {
+			case token.LSS:
+				op = token.GTR
+			case token.LEQ:
+				op = token.GEQ
+			case token.GTR:
+				op = token.LSS
+			case token.GEQ:
+				op = token.LEQ
+			}
+		}
+		if !c10IsLenOf(x, yv, "Name") {
+			continue
+		}
+		if a, b, ok := c10IndexIn(x, xv, it); !ok || a != 1 || b != 0 {
+			continue
+		}
+		var nameOnTrue bool
+		switch op {
+		case token.LSS:
+			nameOnTrue = true
+		case token.GEQ:
+			nameOnTrue = false
+		default:
+			continue
+		}
+		tSucc, fSucc := br.Succs[0], br.Succs[1]
+		nameSucc, padSucc := tSucc, fSucc
+		if !nameOnTrue {
+			nameSucc, padSucc = fSucc, tSucc
+		}
+		reaches := func(succ, pred *ssa.BasicBlock) bool {
+			// the edge br→succ leads to pred (succ is pred or dominates it with a
+			// single way in), or succ is the join itself and pred is br
+			if succ == pb {
+				return pred == br
+			}
+			return len(succ.Preds) == 1 && (succ == pred || succ.Dominates(pred))
+		}
+		if !reaches(nameSucc, namePred) || !reaches(padSucc, padPred) {
+			continue
+		}
+		return &c10Padded{pad: k, kind: "conditional", pos: phi.Pos()}, base, true
+	}
+	return nil, nil, false
+}
+
+// c10RevTable: v is T[x] for a constant package-level table T that inverts the
+// half-ASCII alphabet: T[K+j] = j for j = 0..n-1 and every other entry is
+// negative (an "invalid character" mark). Then a non-negative v is x - K with
+// v <= n-1.
+func c10RevTable(v ssa.Value) (x ssa.Value, k int64, n int, ok bool) {
+	ld, isLd := v.(*ssa.UnOp)
+	if !isLd || ld.Op != token.MUL {
+		return nil, 0, 0, false
+	}
+	ia, isIA := ld.X.(*ssa.IndexAddr)
+	if !isIA {
+		return nil, 0, 0, false
+	}
+	g, isG := ia.X.(*ssa.Global)
+	if !isG {
+		return nil, 0, 0, false
+	}
+	tbl, okT := wire.ConstTable(g)
+	if !okT {
+		return nil, 0, 0, false
+	}
+	first := -1
+	for i, e := range tbl {
+		if e >= 0 {
+			first = i
+			break
+		}
+	}
+	if first < 0 || tbl[first] != 0 {
+		return nil, 0, 0, false
+	}
+	cnt := 0
+	for i, e := range tbl {
+		switch {
+		case e < 0:
+		case i >= first && e == int64(i-first) && i-first == cnt:
+			cnt++
+		default:
+			return nil, 0, 0, false
+		}
+	}
+	return ia.Index, int64(first), cnt, true
+}
+
 func c10IsLenOf(x *wire.X, v ssa.Value, field string) bool {
 	call, ok := wire.StripConv(v).(*ssa.Call)
 	if !ok {
@@ -531,8 +738,76 @@ type c10Padded struct {
 	kind string
 }
 
+// c10Opaque: why the first-level codec function fn may do part of its work
+// where this rule does not look: a function literal, an in-module helper that
+// hands data back (anything but a pure check returning error/bool), a call of a
+// function value, go/defer. "" = nothing of the kind.
+func c10Opaque(c *Ctx, fn *ssa.Function) string {
+	for _, b := range fn.Blocks {
+		for _, in := range b.Instrs {
+			switch y := in.(type) {
+			case *ssa.MakeClosure:
+				return "it contains a function literal (" + y.Fn.Name() + ")"
+			case *ssa.Go, *ssa.Defer:
+				return "it starts a go/defer statement"
+			case *ssa.Call:
+				cc := y.Common()
+				if _, isB := cc.Value.(*ssa.Builtin); isB || cc.IsInvoke() {
+					continue
+				}
+				g := cc.StaticCallee()
+				if g == nil {
+					return "it calls a function value"
+				}
+				if g.Blocks == nil || !c.P.InModule(g) {
+					continue
+				}
+				res := g.Signature.Results()
+				data := false
+				for i := 0; i < res.Len(); i++ {
+					switch types.TypeString(res.At(i).Type(), nil) {
+					case "error", "bool":
+					default:
+						data = true
+					}
+				}
+				if data {
+					return "it hands data to the in-module helper " + g.Name() + ", which is not analysed here"
+				}
+			}
+		}
+	}
+	return ""
+}
+
+// c10RangesOverString: fn iterates a string with range (rune decoding).
+func c10RangesOverString(fn *ssa.Function) (token.Pos, bool) {
+	for _, b := range fn.Blocks {
+		for _, in := range b.Instrs {
+			if rg, ok := in.(*ssa.Range); ok {
+				if bt, isB := rg.X.Type().Underlying().(*types.Basic); isB && bt.Info()&types.IsString != 0 {
+					return rg.Pos(), true
+				}
+			}
+		}
+	}
+	return token.NoPos, false
+}
+
 func c10FirstLevel(c *Ctx, w *prove.World, fle, fld *wcodec) {
 	r := c.R
+	// nd reports an absence-based clause: NOT DECIDED when the function may do
+	// the work somewhere this rule does not look, undecided (= violation) when
+	// the whole function was read and the construct is simply not there
+	encOpaque, decOpaque := c10Opaque(c, fle.fn), c10Opaque(c, fld.fn)
+	nd := func(opaque, key, pos, why string) {
+		if opaque != "" {
+			r.OK("firstlevel", key, pos, "NOT DECIDED — "+why+"; "+opaque)
+			r.Note("C10 firstlevel: %s NOT DECIDED — %s; %s", key, why, opaque)
+			return
+		}
+		r.Undecided("firstlevel", key, pos, why)
+	}
 	nameLen, ok1 := wConst(c, nbtnsPkg, "NetBIOSNameLength")
 	encLen, ok2 := wConst(c, nbtnsPkg, "EncodedNameLength")
 	asciiA, ok3 := wConst(c, nbtnsPkg, "ASCII_A")
@@ -595,6 +870,11 @@ func c10FirstLevel(c *Ctx, w *prove.World, fle, fld *wcodec) {
 	for _, alt := range ex.EncLayouts() {
 		if len(wire.Flatten(alt.Atoms)) >= len(wire.Flatten(layout)) {
 			layout = alt.Atoms
+		}
+	}
+	if encOpaque == "" {
+		if why := wEncIncomplete(ex.EncLayouts()); why != "" {
+			encOpaque = why
 		}
 	}
 	extra := ""
@@ -823,6 +1103,20 @@ func c10FirstLevel(c *Ctx, w *prove.World, fle, fld *wcodec) {
 	var curSrc srcInfo
 	encAn := &lanes.Analyzer{}
 	encAn.Leaf = func(f *lanes.Frame, v ssa.Value) (lanes.Vec, bool) {
+		// (S4) c := P; if i < len(Name) { c = Name[i] }: the padded name, byte i
+		if phi, isPhi := v.(*ssa.Phi); isPhi {
+			if p, base, ok := c10CondPad(ex, phi, curIt); ok {
+				if curSrc.kind != "" && (curSrc.kind != "padded" || curSrc.base != base) {
+					return nil, false
+				}
+				if padded == nil {
+					padded = p
+				}
+				curSrc = srcInfo{"padded", base}
+				return lanes.SrcByte(0, 0), true
+			}
+			return nil, false
+		}
 		base, idx, ok := c10ByteRead(v)
 		if !ok {
 			return nil, false
@@ -985,6 +1279,8 @@ func c10FirstLevel(c *Ctx, w *prove.World, fle, fld *wcodec) {
 				} else {
 					r.Fail("firstlevel", key, pos, fmt.Sprintf("the nibble is offset by %#x, not by ASCII_A = %#x", ks[h], asciiA))
 				}
+			case (vec == nil || vec.HasTop()) && encOpaque != "":
+				nd(encOpaque, key, pos, "the provenance of this byte is unknown ("+c10Vec(vec)+")")
 			default:
 				r.Fail("firstlevel", key, pos, fmt.Sprintf("byte 2i+%d of the encoding is not (name[i] bits %d..%d) + constant; bit provenance: %s", h, shift, shift+3, c10Vec(vec)))
 			}
@@ -1002,7 +1298,7 @@ func c10FirstLevel(c *Ctx, w *prove.World, fle, fld *wcodec) {
 					why, pos = p.why, c.P.Rel(p.pos)
 				}
 				if p != nil && strings.HasPrefix(p.why, "no padding loop") {
-					r.Undecided("firstlevel", padKey, fle.pos, p.why)
+					nd(encOpaque, padKey, fle.pos, p.why)
 				} else {
 					r.Fail("firstlevel", padKey, pos, why)
 				}
@@ -1051,7 +1347,13 @@ func c10FirstLevel(c *Ctx, w *prove.World, fle, fld *wcodec) {
 				}
 			}
 		}
-		r.Undecided("firstlevel", "FirstLevelEncode: nibble stores", fle.pos, fmt.Sprintf("expected two bytes per name byte written into the %d-byte encoding inside a loop (stores encoded[2i], encoded[2i+1] or append(encoded, hi, lo)), found %d", encLen, n))
+		if pos, isRunes := c10RangesOverString(fle.fn); isRunes {
+			r.Fail("firstlevel", "FirstLevelEncode: nibble stores", c.P.Rel(pos), "the name is iterated with range over a string, which decodes UTF-8: a name byte >= 0x80 is not encoded as its own two nibbles (RFC 1001 §14.1 encodes bytes)")
+			r.Counts["firstlevel"]++ // stands for both halves
+		} else {
+			nd(encOpaque, "FirstLevelEncode: nibble stores", fle.pos, fmt.Sprintf("expected two bytes per name byte written into the %d-byte encoding inside a loop (stores encoded[2i], encoded[2i+1], append(encoded, hi, lo) or WriteByte into a builder), found %d", encLen, n))
+			r.Counts["firstlevel"]++ // stands for both halves
+		}
 	}
 	if !padDone {
 		// the padded buffer may exist although the nibble stores were not recognised
@@ -1074,7 +1376,7 @@ func c10FirstLevel(c *Ctx, w *prove.World, fle, fld *wcodec) {
 			}
 		}
 		if !found {
-			r.Undecided("firstlevel", padKey, fle.pos, "no padding loop recognised")
+			nd(encOpaque, padKey, fle.pos, "no padding loop recognised")
 		}
 	}
 	// scope separator: the constant emitted immediately before the ScopeID bytes
@@ -1212,7 +1514,11 @@ func c10FirstLevel(c *Ctx, w *prove.World, fle, fld *wcodec) {
 	}
 	key := "FirstLevelDecode: byte i is (byte 2i − 'A') << 4 | (byte 2i+1 − 'A')"
 	if decStore == nil {
-		r.Undecided("firstlevel", key, fld.pos, "no store decoded[i] = … into a 16-byte buffer (and no decoded = append(decoded, …)) inside a loop")
+		nd(decOpaque, key, fld.pos, "no store decoded[i] = … into a 16-byte buffer (and no decoded = append(decoded, …)) inside a loop")
+		if decOpaque != "" {
+			// loop range, two nibbles, length, trim, separator: all depend on it
+			r.Counts["firstlevel"] += 6
+		}
 		return
 	}
 	if k, isK := wConstOf(decStore.it.Bound); decStore.it.From != nil || decStore.it.FromK != 0 || !isK || k != nameLen {
@@ -1224,11 +1530,16 @@ func c10FirstLevel(c *Ctx, w *prove.World, fle, fld *wcodec) {
 	unbounded := ""
 	decAn := &lanes.Analyzer{}
 	decAn.Leaf = func(f *lanes.Frame, v ssa.Value) (lanes.Vec, bool) {
+		rev := false
 		x, k, _, peeled := c10Peel(v)
+		if rx, rk, rn, isRev := c10RevTable(v); isRev && rn <= 16 {
+			// nibble = T[byte]: byte - K when it is not the "invalid" mark
+			x, k, peeled, rev = rx, -rk, true, true
+		}
 		if !peeled || k >= 0 {
 			return nil, false
 		}
-		base, idx, ok := c10ByteRead(x)
+		base, idx, ok := c10ByteRead(wire.StripConv(x))
 		if !ok {
 			return nil, false
 		}
@@ -1243,7 +1554,13 @@ func c10FirstLevel(c *Ctx, w *prove.World, fle, fld *wcodec) {
 		}
 		nibs[v] = &nib{k: -k, idxB: b, src: base, val: v}
 		// the nibble is bounded by 0x0F where it is used (E1 on the dominating range checks)
-		if !wProveLE(w, decStore.st, v, 0x0F, false) {
+		if rev {
+			// the table yields 0..15 or a negative mark: the mark must be excluded
+			if !wProveGE(w, decStore.st, v, 0, false) {
+				unbounded = fmt.Sprintf("the table entry for byte 2i+%d may be the negative \"invalid character\" mark where decoded[i] is stored", b)
+				return lanes.SrcByte(int(b)+1, 0), true
+			}
+		} else if !wProveLE(w, decStore.st, v, 0x0F, false) {
 			unbounded = fmt.Sprintf("byte 2i+%d − %#x is not bounded by 0x0F where decoded[i] is stored", b, -k)
 			return lanes.SrcByte(int(b)+1, 0), true
 		}
@@ -1259,7 +1576,7 @@ func c10FirstLevel(c *Ctx, w *prove.World, fle, fld *wcodec) {
 	}
 	want := make(lanes.Vec, 8)
 	for bit := 0; bit < 4; bit++ {
-		want[bit] = lanes.Bit{K: lanes.Src, S: 2, I: 0, B: bit}     // low nibble from byte 2i+1
+		want[bit] = lanes.Bit{K: lanes.Src, S: 2, I: 0, B: bit}   // low nibble from byte 2i+1
 		want[bit+4] = lanes.Bit{K: lanes.Src, S: 1, I: 0, B: bit} // high nibble from byte 2i
 	}
 	switch {
@@ -1267,6 +1584,8 @@ func c10FirstLevel(c *Ctx, w *prove.World, fle, fld *wcodec) {
 		r.Fail("firstlevel", key, c.P.Rel(decStore.st.Pos()), unbounded+": a byte outside 'A'..'P' is folded into the name instead of being rejected")
 	case vec != nil && vec.Equal(want):
 		r.OK("firstlevel", key, c.P.Rel(decStore.st.Pos()), "bits 4-7 from byte 2i, bits 0-3 from byte 2i+1, both bounded by 0x0F")
+	case (vec == nil || vec.HasTop()) && decOpaque != "":
+		nd(decOpaque, key, c.P.Rel(decStore.st.Pos()), "the provenance of decoded[i] is unknown ("+c10Vec(vec)+")")
 	default:
 		r.Fail("firstlevel", key, c.P.Rel(decStore.st.Pos()), "decoded[i] is not (nibble of byte 2i) << 4 | (nibble of byte 2i+1); bit provenance (source 1 = byte 2i, source 2 = byte 2i+1): "+c10Vec(vec))
 	}
@@ -1279,7 +1598,7 @@ func c10FirstLevel(c *Ctx, w *prove.World, fle, fld *wcodec) {
 		key := fmt.Sprintf("FirstLevelDecode: %s nibble is byte 2i+%d minus the encoder's constant", half, n.idxB)
 		switch {
 		case !encOK[n.idxB]:
-			r.Undecided("firstlevel", key, c.P.Rel(n.val.Pos()), "the encoder's constant for this half was not determined")
+			nd(encOpaque, key, c.P.Rel(n.val.Pos()), "the encoder's constant for this half was not determined")
 		case n.k == encK[n.idxB] && n.k == asciiA:
 			r.OK("firstlevel", key, c.P.Rel(n.val.Pos()), fmt.Sprintf("− %#x", n.k))
 		default:
@@ -1287,12 +1606,12 @@ func c10FirstLevel(c *Ctx, w *prove.World, fle, fld *wcodec) {
 		}
 	}
 	if len(nibs) < 2 {
-		r.Undecided("firstlevel", "FirstLevelDecode: nibble sources", fld.pos, "did not find both `encoded[2i] − K` and `encoded[2i+1] − K`")
+		nd(decOpaque, "FirstLevelDecode: nibble sources", fld.pos, "did not find both `encoded[2i] − K` and `encoded[2i+1] − K`")
 	}
 	// length check
 	key = "FirstLevelDecode: the encoded name must be exactly 32 bytes"
 	if srcStr == nil {
-		r.Undecided("firstlevel", key, fld.pos, "source string not identified")
+		nd(decOpaque, key, fld.pos, "source string not identified")
 	} else if wProveLE(w, decStore.st, srcStr, encLen, true) && wProveGE(w, decStore.st, srcStr, encLen, true) {
 		r.OK("firstlevel", key, fld.pos, "E1: len(encodedName) == 32 inside the loop")
 	} else {
@@ -1383,13 +1702,19 @@ func c10FirstLevel(c *Ctx, w *prove.World, fle, fld *wcodec) {
 			}
 		}
 	}
-	if !foundTrim {
+	if !foundTrim && decOpaque != "" {
+		nd(decOpaque, key, fld.pos, "no TrimRight of the 16 decoded bytes found in FirstLevelDecode itself")
+	} else if !foundTrim {
 		r.Fail("firstlevel", key, fld.pos, "the decoded 16 bytes are not right-trimmed: the encoder's space padding stays in the name")
 	}
 	key = "scope separator: encoder appends what the decoder splits on"
 	switch {
 	case encSep == "" || decSep == "":
-		r.Undecided("firstlevel", key, fld.pos, fmt.Sprintf("separator not found (encoder %q, decoder %q)", encSep, decSep))
+		op := encOpaque
+		if encSep != "" {
+			op = decOpaque
+		}
+		nd(op, key, fld.pos, fmt.Sprintf("separator not found (encoder %q, decoder %q)", encSep, decSep))
 	case encSep == decSep && decFirst:
 		r.OK("firstlevel", key, fld.pos, fmt.Sprintf("%q, %s", encSep, decHow))
 	default:
